@@ -23,10 +23,12 @@ import (
 	"context"
 	"time"
 
+	"entgo.io/ent/dialect/sql"
 	"github.com/google/uuid"
 
 	"go.6river.tech/mmmbbb/ent"
 	"go.6river.tech/mmmbbb/ent/snapshot"
+	"go.6river.tech/mmmbbb/ent/subscription"
 	"go.6river.tech/mmmbbb/ent/topic"
 	"go.6river.tech/mmmbbb/logging"
 )
@@ -57,6 +59,19 @@ func (a *PruneDeletedTopics) Execute(ctx context.Context, tx *ent.Tx) error {
 			// we rely on subscriptions being pruned to then allow topics to be pruned
 			// UPSTREAM: ticket for HasRelationWith efficiency
 			topic.Not(topic.HasSubscriptions()),
+			// a live subscription may still name this topic in its dead-letter
+			// policy (messages are then dropped after the last attempt). Removing
+			// the row would null the reference and thereby erase the policy: the
+			// subscription would start redelivering without limit.
+			func(s *sql.Selector) {
+				t := sql.Table(subscription.Table)
+				s.Where(sql.NotExists(
+					sql.Select(t.C(subscription.FieldID)).From(t).Where(sql.And(
+						sql.ColumnsEQ(t.C(subscription.FieldDeadLetterTopicID), s.C(topic.FieldID)),
+						sql.IsNull(t.C(subscription.FieldDeletedAt)),
+					)),
+				))
+			},
 		).
 		Limit(a.params.MaxDelete).
 		All(ctx)
